@@ -17,8 +17,8 @@ theorem chains_pinned :
     (Generated.wiring.lookup "argResolver").map (·.2.1) = some (argChain.map Resolver.wiringName) ∧
     (Generated.wiring.lookup "primitiveArgResolver").map (·.2.1) = some (paramChain.map Resolver.wiringName) ∧
     (Generated.wiring.lookup "paramResolver").map (·.2.1) = some ["@primitiveArgResolver"] ∧
-    (Generated.wiring.lookup "stepCompileServices").map (·.2.1) = some ["@imports", "@argResolver"] ∧
-    (Generated.wiring.lookup "stepCompileDecorators").map (·.2.1) = some ["@imports", "@argResolver"] ∧
+    Generated.argsAre ((Generated.wiring.lookup "stepCompileServices").map (·.2.1)) ["@imports", "@argResolver"] = true ∧
+    Generated.argsAre ((Generated.wiring.lookup "stepCompileDecorators").map (·.2.1)) ["@imports", "@argResolver"] = true ∧
     (Generated.wiring.lookup "gontainerValueResolver").map (·.2.1) =
       some ["!value consts.SpecialGontainerID", "!value consts.SpecialGontainerValue"] := by decide
 
